@@ -1,6 +1,6 @@
 SPECIFICATION Spec
 CONSTANT Contents = {1, 2, 3}
-CONSTANT Gaps = {1, 2}
+CONSTANT Gaps = {1, 2, 3, 4}
 CONSTANT MaxCalls = 3
 INVARIANT TypeOK
 PROPERTY ResultIsForCurrentModel
